@@ -64,14 +64,14 @@ def build_harness():
 def bridge_coverage():
     """names of translated functions (Generated/Trans*.lean) that no bridge theorem mentions"""
     names = []
-    for f in ("Trans", "TransPlane"):
+    for f in ("TransBits", "TransFrame", "Trans", "TransPlane"):
         t = open(os.path.join(LEAN, "SqModel", "Generated", f + ".lean"), encoding="utf-8").read()
         m = re.search(r"def T\.translated_%s : List String := \[(.*?)\]" % f, t)
         if not m:
             return ["<list of translated functions missing in %s.lean>" % f]
         names += re.findall(r'"([^"]+)"', m.group(1))
     txt = ""
-    for b in ("Bridge", "BridgeRat", "BridgePlane"):
+    for b in ("BridgeBits", "Bridge", "BridgeRat", "BridgePlane"):
         txt += open(os.path.join(LEAN, "SqModel", "Proofs", b + ".lean"), encoding="utf-8").read()
     return [n for n in names if not re.search(re.escape(n) + r"(?![A-Za-z0-9_])", txt)]
 
@@ -244,8 +244,8 @@ def ang_diff(a, b):
     d = abs(a - b) % 360.0
     return min(d, 360.0 - d)
 
-def lines_agree(impl, model, ignore=()):
-    """field-wise comparison of two canonical lines; returns list of differing keys"""
+def lines_agree(impl, model, ignore=(), only=None):
+    """field-wise comparison of two canonical lines; returns list of differing keys (`only`: the keys that count)"""
     if impl == model:
         return []
     hi, hm = impl.split(" ", 2)[:2], model.split(" ", 2)[:2]
@@ -256,7 +256,7 @@ def lines_agree(impl, model, ignore=()):
     if impl.startswith("row ") and hi[1:2] != hm[1:2]:
         diffs.append("<key>")
     for k in sorted(set(a) | set(b)):
-        if k in ignore:
+        if k in ignore or (only is not None and k not in only):
             continue
         va, vb = a.get(k), b.get(k)
         if va == vb:
@@ -276,7 +276,7 @@ def lines_agree(impl, model, ignore=()):
         diffs.append("<text>")
     return diffs
 
-def compare_streams(impl_lines, model_lines, ignore=(), skip_prefixes=("seg ", "counts", "spec ", "render", "R|", "endrender", "tcp ")):
+def compare_streams(impl_lines, model_lines, ignore=(), skip_prefixes=("seg ", "counts", "spec ", "render", "R|", "endrender", "tcp "), only=None):
     """correspondence: the two output streams must agree line by line (after dropping lines only
     one side emits).  Returns list of (index, impl_line, model_line, keys)."""
     fi = [l for l in impl_lines if not l.startswith(skip_prefixes)]
@@ -285,7 +285,7 @@ def compare_streams(impl_lines, model_lines, ignore=(), skip_prefixes=("seg ", "
     for i in range(max(len(fi), len(fm))):
         a = fi[i] if i < len(fi) else "<missing>"
         b = fm[i] if i < len(fm) else "<missing>"
-        d = lines_agree(a, b, ignore)
+        d = lines_agree(a, b, ignore, only)
         if d:
             out.append((i, a, b, d))
             if a == "<missing>" or b == "<missing>" or "<kind>" in d:
